@@ -274,6 +274,15 @@ def run(prop: str, tier: str, seed: int, repo: str, replay: str, enroll: bool) -
                 {"environment": extra, "functions": {f: {k: v for k, v in st.items() if k != "first_violation"} for f, st in xc2.get("functions", {}).items()}})
         if hasattr(res["_session"].side, "validate_trusted") and d.get("validate_trusted", True):
             res["trusted_contract_validation"] = defs.validate_trusted(r, sc)
+        if tier == "thorough" and d.get("selftest", True):
+            from checks import selftest
+            try:
+                st_res = selftest.run(sc, repo, f"{prop}:{sc}")
+            except Exception as e:  # noqa: BLE001
+                st_res = {"error": f"{type(e).__name__}: {e}"}
+            res["mutation_selftest"] = st_res
+            if st_res.get("mutants", 0) > 0 and st_res.get("killed", 0) == 0:
+                r.crashes.append(f"mutation self-test of {sc}: no mutant of the code makes any clause fail - the contracts / the generator prove too much")
         for k in ("_failing", "_missing", "_session"):
             res.pop(k)
         res["_coherent_ok"] = res.get("_coherent_ok", {})
